@@ -307,3 +307,70 @@ class DegreeInCompoundTarget(Harness):
 
 def harnesses(tier):
     return [DegreeOperator(s) for s in SCALES] + [DegreeConversion(True), DegreeConversion(False), DegreeInCompoundTarget()]
+
+
+# --------------------------------------------------------------------------------------------------------------
+from mirsym.lib import PeekableV, VecIter
+
+SPELLINGS = {
+    'Celsius': ['degC', '°C', 'celsius', '℃'],
+    'Fahrenheit': ['degF', '°F', 'fahrenheit', '℉'],
+    'Reaumur': ['degRé', '°Ré', 'degRe', '°Re', 'réaumur', 'reaumur'],
+    'Romer': ['degRø', '°Rø', 'degRo', '°Ro', 'rømer', 'romer'],
+    'Delisle': ['degDe', '°De', 'delisle'],
+    'Newton': ['degN', '°N', 'degnewton'],
+}
+NOT_SCALES = ['deg', 'degK', 'degR', 'degree', 'kelvin', 'newton', 'degc', 'Celsius', 'degNewton']
+
+
+class DegreeSpellings(Harness):
+    """Concrete-input companion (no symbolic variable: the set of documented spellings is finite and listed here):
+    the real lexer must map every documented spelling to its scale and nothing else."""
+    name = 'lexer.degree_spellings'
+    props = ('C10',)
+    entry_name = '<text_query::TokenIterator as Iterator>::next'
+    describe = 'TokenIterator::next on each documented spelling of the six scales (31 strings) and on 9 near misses'
+    bounds = ['finite list of spellings (concrete inputs; decided by executing the real lexer MIR, no solver variable)']
+    expect_classes = ['Option::Some']
+    loop_bound = 40
+    _concrete = None
+
+    def build(self, ex, I):
+        words = [(w, s) for s, ws in SPELLINGS.items() for w in ws] + [(w, None) for w in NOT_SCALES]
+        w, s = words[ex.choose(len(words), 'spelling')]
+        it = Struct('TokenIterator', [PeekableV(VecIter([ord(c) for c in w]))], 'text_query')
+        return [it], {'word': w, 'scale': s}
+
+    def entry(self, ex, args, ctx):
+        return ex.call(None, '<parsing::text_query::TokenIterator<\'_> as Iterator>::next', [ref(args[0])])
+
+    def post(self, ex, ctx, outcome):
+        t = deref_all(deref_all(outcome[1]).fields[0])
+        if ctx['scale'] is None:
+            return [('`%s` is not a scale name' % ctx['word'], t.vname != 'Degree')]
+        okk = t.vname == 'Degree' and deref_all(t.fields[0]).vname == ctx['scale']
+        return [('`%s` lexes as the %s scale (got %s)' % (ctx['word'], ctx['scale'], t.vname), okk)]
+
+    def case(self, ctx, vals, label):
+        c = Harness.case(self, ctx, vals, label)
+        c['inputs']['word'] = ctx['word']
+        c['inputs']['scale'] = ctx['scale']
+        return c
+
+    def native(self, inputs, label):
+        return [{'mode': 'query', 'text': '300 kelvin -> %s' % inputs['word']}, {'mode': 'query', 'text': '300 kelvin -> %s' % SPELL.get(inputs['scale'] or 'Celsius')}]
+
+    def judge(self, inputs, label, obs):
+        a, b = obs
+        if inputs['scale'] is None:
+            j = a.get('json') or {}
+            return (a.get('outcome') == 'ok' and j.get('type') == 'conversion' and 'unit' not in str(j)), 'near miss `%s` gave %s' % (inputs['word'], a.get('display'))
+        return (a.get('display') != b.get('display') or a.get('outcome') != 'ok'), '`-> %s` gave %s, `-> %s` gave %s' % (
+            inputs['word'], a.get('display'), SPELL[inputs['scale']], b.get('display'))
+
+
+_base_harnesses = harnesses
+
+
+def harnesses(tier):   # noqa: F811
+    return _base_harnesses(tier) + [DegreeSpellings()]
